@@ -48,6 +48,12 @@ var lastKinds = []lastKind{
 	{name: "switch-trivial-break", mk: func(id *int) []*Stmt {
 		return []*Stmt{{K: "switch", E: v("a"), Cases: []*Case{{Exprs: []*Expr{lit(1)}, Body: []*Stmt{{K: "if", E: cmp(">", v("a"), lit(0)), Body: []*Stmt{{K: "break"}}}, evS(nid(id))}}}}}
 	}},
+	{name: "switch-trivial-fallthrough", mk: func(id *int) []*Stmt {
+		return []*Stmt{{K: "raw", Raw: "switch a {\ncase 1:\n\ttr.Ev(901)\n\tfallthrough\ncase 2:\n\ttr.Ev(902)\ndefault:\n\ttr.Ev(903)\n}"}}
+	}},
+	{name: "explicitly-instantiated-yield", yields: true, mk: func(id *int) []*Stmt {
+		return []*Stmt{{K: "raw", Raw: "$YIELDT{int}{a + 70}"}, evS(nid(id))}
+	}},
 	{name: "switch-yield", yields: true, mk: func(id *int) []*Stmt {
 		return []*Stmt{{K: "switch", E: v("a"), Cases: []*Case{{Exprs: []*Expr{lit(1)}, Body: []*Stmt{yS(lit(31))}}, {Exprs: []*Expr{lit(2)}, Body: []*Stmt{evS(nid(id))}}}}}
 	}},
@@ -264,6 +270,8 @@ type collDef struct {
 	unordered    bool
 	muts         []string // statements mutating c inside the loop body (i = iteration counter variable)
 	hugeBound    bool     // the loop must be left by break (only body shape "break")
+	setup        string   // extra statements after `c := lit`
+	rangeExpr    string   // expression in the range header (default: c)
 }
 
 var collDefs = []collDef{
@@ -274,6 +282,14 @@ var collDefs = []collDef{
 	{kind: "slice", kt: "int", vt: "any", lit: `[]any{1, nil, "z"}`, n: 3, muts: []string{"c[1] = n"}},
 	{kind: "slice", kt: "int", vt: "int", lit: `[]int(nil)`, n: 0},
 	{kind: "array", kt: "int", vt: "int", lit: `[3]int{7, 8, 9}`, n: 3, muts: []string{"c[2] = 90 + n", "c[0] = 1"}},
+	{kind: "array", kt: "int", vt: "int", lit: `[3]int{7, 8, 9}`, n: 3, rangeExpr: "(c)"},
+	{kind: "array", kt: "int", vt: "int", lit: `[3]int{7, 8, 9}`, n: 3, setup: "pc := &c", rangeExpr: "*pc"},
+	{kind: "array", kt: "int", vt: "int", lit: `[3]int{7, 8, 9}`, n: 3, setup: "st := struct{ arr [3]int }{c}", rangeExpr: "st.arr"},
+	{kind: "array", kt: "int", vt: "int", lit: `[3]int{7, 8, 9}`, n: 3, setup: "pst := &struct{ arr [3]int }{c}", rangeExpr: "pst.arr"},
+	{kind: "array", kt: "int", vt: "int", lit: `[3]int{7, 8, 9}`, n: 3, setup: "sa := [][3]int{c, c}", rangeExpr: "sa[1]"},
+	{kind: "array", kt: "int", vt: "int", lit: `[3]int{7, 8, 9}`, n: 3, setup: "aa := [2][3]int{c, c}", rangeExpr: "aa[1]"},
+	{kind: "array", kt: "int", vt: "int", lit: `[3]int{7, 8, 9}`, n: 3, setup: `ma := map[string][3]int{"k": c}`, rangeExpr: `ma["k"]`},
+	{kind: "array", kt: "int", vt: "int", lit: `[3]int{7, 8, 9}`, n: 3, setup: "mk := func() [3]int { return c }", rangeExpr: "mk()"},
 	{kind: "map", kt: "int", vt: "int", lit: `map[int]int{5: 6}`, n: 1, muts: []string{"c[5] = 60", "delete(c, 5)"}},
 	{kind: "map", kt: "int", vt: "int", lit: `map[int]int{1: 10, 2: 20, 3: 30}`, n: 3, unordered: true},
 	{kind: "map", kt: "string", vt: "any", lit: `map[string]any{"k": nil}`, n: 1},
@@ -341,9 +357,17 @@ func rangeProgram(name string, cd collDef, form int, op, bodyKind string, salt i
 	// the collection is bound to a variable so the body can mutate it; the range expression is
 	// wrapped in tr.Vl (evaluated exactly once)
 	body = append(body, &Stmt{K: "rawsimple", Raw: "c := " + cd.lit}, &Stmt{K: "rawsimple", Raw: "_ = c"}, &Stmt{K: "decl", Name: "n", E: lit(0)})
-	rs := &Stmt{K: "range", Op: op, Coll: &Coll{Kind: cd.kind, Lit: "c", KT: cd.kt, VT: cd.vt, Vl: 77, N: cd.n}}
-	if salt%2 == 0 {
-		rs.Coll.Vl = 0 // plain `range c`: an addressable range expression
+	rx := "c"
+	if cd.setup != "" {
+		body = append(body, &Stmt{K: "rawsimple", Raw: cd.setup})
+	}
+	if cd.rangeExpr != "" {
+		rx = cd.rangeExpr
+		p.tag("range-expr:" + cd.rangeExpr)
+	}
+	rs := &Stmt{K: "range", Op: op, Coll: &Coll{Kind: cd.kind, Lit: rx, KT: cd.kt, VT: cd.vt, Vl: 77, N: cd.n}}
+	if salt%2 == 0 || cd.rangeExpr != "" {
+		rs.Coll.Vl = 0 // plain range expression (addressable or not, as written)
 		p.tag("plain-range-expression")
 	}
 	var logArgs []*Expr
